@@ -253,17 +253,21 @@ extern "C" int harness_main() {
     }
 
     // A combiner retired while the reduce node evaluates (tree shrink / re-shape) is stopped through a noexcept helper;
-    // whether its stop error reaches the caller is asserted under its own id.
-    if (g_first_phase == PH_STOP && g_first_node < R0 && g_first_in_root_eval) {
-        verif_assert(threw == (g_throws > 0), "C14.reduce_retired_combiner_stop_error_reaches_caller");
-    } else {
-        verif_assert(threw == (g_throws > 0), "C14.error_reaches_caller_iff_thrown");
-    }
+    // whether its stop error (when it is the first error of the run) reaches the caller is asserted under its own id.
+    bool first_is_retired_stop = g_first_phase == PH_STOP && g_first_node < R0 && g_first_in_root_eval;
+    bool ok_reaches = threw == (g_throws > 0), ok_first = true, ok_names = true;
     if (threw && g_throws > 0) {
         std::string want = std::string("boom_") + char('a' + g_first_node) + "_" + PHASE_WORD[g_first_phase];
-        verif_assert(msg.find(want) != std::string::npos, "C14.caller_gets_first_error");
+        ok_first = msg.find(want) != std::string::npos;
         const char *label = g_first_node == R0 ? "keysrc" : g_first_node == R1 ? "sink" : "reduce";
-        verif_assert(msg.find(label) != std::string::npos, "C14.error_names_failing_node");
+        ok_names = msg.find(label) != std::string::npos;
+    }
+    if (first_is_retired_stop) {
+        verif_assert(ok_reaches && ok_first && ok_names, "C14.reduce_retired_combiner_stop_error_reaches_caller");
+    } else {
+        verif_assert(ok_reaches, "C14.error_reaches_caller_iff_thrown");
+        verif_assert(ok_first, "C14.caller_gets_first_error");
+        verif_assert(ok_names, "C14.error_names_failing_node");
     }
 
     int removed_in_run = 0, live_at_shutdown = 0;
